@@ -61,6 +61,28 @@ pub fn strategy() -> impl Strategy<Value = Case> {
                     t.commands_path = Some(format!("tools/cmds-{}", i));
                 }
             }
+            // a quarter of the configurations keep monorail's output in a directory of their own
+            // whose name is a string prefix (not a component prefix) of a target's first component
+            if raw.perm.first().copied().unwrap_or(0) % 4 == 0 {
+                let firsts: BTreeSet<String> = config
+                    .targets
+                    .iter()
+                    .flat_map(|t| t.uses.iter().chain(t.ignores.iter()).chain(std::iter::once(&t.path)))
+                    .filter_map(|p| p.split('/').next().map(String::from))
+                    .collect();
+                let cand = firsts
+                    .iter()
+                    .filter(|f| f.chars().count() >= 2)
+                    .map(|f| {
+                        let mut c: Vec<char> = f.chars().collect();
+                        c.pop();
+                        c.into_iter().collect::<String>()
+                    })
+                    .find(|c| !firsts.contains(c) && c.is_ascii());
+                if let Some(c) = cand {
+                    config.out_dir = Some(c);
+                }
+            }
             let commands: Vec<String> = (0..ncmd).map(|i| format!("c{}", i)).collect();
             let state = match state_k {
                 0 => State::NoCheckpoint,
@@ -371,6 +393,7 @@ pub fn check(case: &Case, w: usize) -> CheckResult {
         .class_if(cfg.targets.iter().any(|t| t.commands_path.is_some()), "custom-commands-dir")
         .class_if(linked > 0, "symlinked-command-files")
         .class_if(failed_mode, "one-executable-fails")
+        .class_if(cfg.out_dir.is_some(), "out-dir-name-is-a-string-prefix-of-a-target")
         .class_if(selected.len() > 16, "selection>16")
         .class_if(selected.len() > 32, "selection>32")
         .class_if(selected.len() > 64, "selection>64")
